@@ -26,6 +26,8 @@ type Profile struct {
 	Shape     bool           `json:"shape"`
 	MaxRegs   int            `json:"maxRegs"`
 	MaxOpen   int            `json:"maxOpen"`
+	Twin      string         `json:"twin"`         // "" | "reset" | "load"
+	WeightsB  map[string]int `json:"weightsAfter"` // weights once a "load" twin exists
 }
 
 type generator struct {
@@ -35,6 +37,7 @@ type generator struct {
 	ops  []Op
 	rels []int
 	nons []int
+	ss   *Session
 }
 
 func (g *generator) pct(p int) bool { return g.rng.Intn(100) < p }
@@ -298,24 +301,28 @@ func (g *generator) next() Op {
 	alive := g.aliveRefs()
 	dead := g.deadRefs()
 	faulty := g.pct(g.p.FaultPct)
+	weights := g.p.Weights
+	if g.ss != nil && g.ss.b != nil && g.p.Twin == "load" && g.p.WeightsB != nil {
+		weights = g.p.WeightsB
+	}
 	kinds := []string{}
-	for k := range g.p.Weights {
+	for k := range weights {
 		kinds = append(kinds, k)
 	}
 	sort.Strings(kinds)
 	total := 0
 	for _, k := range kinds {
-		total += g.p.Weights[k]
+		total += weights[k]
 	}
 	for tries := 0; tries < 50; tries++ {
 		r := g.rng.Intn(total)
 		kind := ""
 		for _, k := range kinds {
-			if r < g.p.Weights[k] {
+			if r < weights[k] {
 				kind = k
 				break
 			}
-			r -= g.p.Weights[k]
+			r -= weights[k]
 		}
 		// While locked, structural operations are faults: keep their share small.
 		if g.locked() && !faulty {
@@ -778,6 +785,10 @@ func (g *generator) next() Op {
 			return Op{Op: "Unregister", Reg: g.pick(live)}
 		case "reset":
 			return Op{Op: "Reset"}
+		case "dump":
+			return Op{Op: "Dump"}
+		case "load":
+			return Op{Op: "Load"}
 		case "read":
 			apis := []string{"Get", "Has", "Mask", "Ids", "Relations.Get", "Alive"}
 			api := apis[g.rng.Intn(len(apis))]
